@@ -17,7 +17,8 @@ CHECKS = {
             'up to the per-type depth (four profiles incl. forward-focused and deep small-alphabet ones) are executed on fresh real '
             'elements for all 94 types; every successful serialisation is parsed and its child sequence must be accepted by the '
             'reference content-model automaton. Part 2: nested documents - every (parent type, element-content child) pair x all '
-            'histories of depth 2/3 on the checked nested child, both nodes judged.', NOTE, '4 C01'),
+            'histories of depth 2/3 on the checked nested child (and serialise / remove / serialise), both nodes judged. Part 3: every complete '
+            'document of a model-driven enumeration is validated by the JDK (content-model errors at any depth).', NOTE, '4 C01'),
     'C02': (MC, 'model-driven: all traces of each content-model DFA up to a bound replayed on the real element',
             'Every accepted word (up to a per-type length bound), a transition cover and all pumped simple cycles of the '
             'reference DFA of each of the 94 content models are replayed against the real element; acceptance, final '
@@ -72,7 +73,8 @@ CHECKS = {
             'comparison computed by replay on fresh objects.', NOTE + ' Fingerprint depth k=1.', '4 C10'),
     'C11': (MC, BFS + 'differential oracle: fingerprint after each removal vs a rebuilt twin holding the remaining children',
             'Every successful remove / xml_x=None in the add/remove exploration is compared with a fresh twin built from the remaining '
-            'children in the same relative order (forward arguments preserved).', NOTE + ' Fingerprint depth k=1.', '4 C11'),
+            'children in the same relative order (forward arguments preserved). Part 2 (model-driven): every transition-cover / pumped word '
+            'accepted in document order x every position removed, compared with the twin.', NOTE + ' Fingerprint depth k=1.', '4 C11'),
     'C12': (MC, 'all multisets with a unique arrangement x all distinct permutations replayed; additions-only BFS with exhaustive '
                 'completion search for every rejection',
             'Part (a) enumerates every multiset (size by budget) whose reference automaton has exactly one arrangement and replays every '
@@ -80,7 +82,8 @@ CHECKS = {
     'C13': (MC, 'product exploration of two live instances (all pairs of depth-2 histories x 3 merge shapes) with object-graph '
                 'equality, plus order-independence of all acceptance verdict tables against one pristine process per class',
             'Isolation is judged on the whole object graph reachable from the untouched instance and on the complete verdict tables of '
-            'all 441 classes under sorted / reversed / post-workload orders.', 'Merge shapes before/inside/after only; alphabet capped.', '4 C13'),
+            'all 441 classes under sorted / reversed / post-workload orders; B also constructed unchecked and switched on; a structural digest '
+            'of the shared container templates; trees returned by the parser share nothing.', 'Merge shapes before/inside/after/toggled only; alphabet capped.', '4 C13'),
     'C14': (MC, BFS + 'deepcopy in every reached state, then every single mutation on either side; attribute recipes x check flag x nesting',
             'Copies are compared with the original in every state of the structural exploration and for every attribute recipe '
             '(keyword, dot, overwrite, removal) of every class; aliasing is probed by mutating one side and re-observing the other.',
@@ -97,7 +100,8 @@ CHECKS = {
             'checked children stay checked inside unchecked parents and vice versa.', NOTE, '4 C18'),
     'C19': (MC, BFS + 'monitor on every call: exception class/site, captured stdout/stderr, per-call alarm; out-of-alphabet arguments included',
             'Every call of the misuse exploration (foreign elements, non-elements, None, detached children, bad forward indices, both '
-            'intelligent_choice values) must succeed or raise a documented type, silently.', NOTE, '4 C19'),
+            'intelligent_choice values) must succeed or raise a documented type, silently (warnings count as output). Part 2: every simple type x '
+            'numeric / object / string probes (incl. ints beyond float range) through class, element and attribute entry points.', NOTE, '4 C19'),
 }
 
 NOT_YET = {}
